@@ -96,6 +96,13 @@ func runLife(e *Env) {
 		}
 	}
 	e.Note("authMode", authMode)
+	// a conviction policy of the user's (a callback into user code, which may take its time)
+	if !e.NoFaults && tp.Chance(1, 4) {
+		cfg.ConvictionPolicy = lifeConviction{k: k}
+		k.Fault("user-conviction-policy")
+		k.ArmNext("user.convict") // its first call is held until the scheduler resumes it
+	}
+	muted := map[*node.SConn]bool{} // connections on which the node has stopped answering keep-alive probes
 	received := map[string]int{}
 
 	valMeta := &cqlspec.RowsMeta{GlobalSpec: true, Columns: []cqlspec.ColSpec{{Keyspace: "ks", Table: "t", Name: "v", Type: cqlspec.ColType{ID: cqlspec.TVarchar}}}}
@@ -150,6 +157,9 @@ func runLife(e *Env) {
 				k.Fault("refresh.answer-held")
 				return node.Hold
 			}
+			if sc.Started && rec.Req.Header.Opcode == cqlspec.OpOptions && muted[sc] {
+				return node.Drop
+			}
 			if sc.Started && rec.Req.Header.Opcode == cqlspec.OpOptions && tp.Chance(1, 3) {
 				// the answer to a keep-alive probe (pooled or control connection) is slow too
 				k.Fault("heartbeat.answer-held")
@@ -160,7 +170,7 @@ func runLife(e *Env) {
 		k.DrawPlan([]string{"rd.woke", "rd.beforeRefresh", "rd.stop", "ed.woke", "ed.stop", "sess.close.pool", "sess.close.control",
 			"sess.close.events", "sess.close.refresher", "sess.close.cancel", "ctl.heartbeat", "ctl.reconnect", "ctl.reconnected", "ctl.reconnected", "ctl.close",
 			"fill.upgrade", "fill.filling", "fill.stopping", "connect.dialed", "connect.dialed", "connect.dialed", "pool.handleError", "pool.close",
-			"close.unlocked", "close.beforeCancel", "exec.afterWrite", "rd.woke", "rd.stop", "exec.beforeWrite", "exec.beforeWrite"}, 4, 6)
+			"close.unlocked", "close.beforeCancel", "exec.afterWrite", "rd.woke", "rd.stop", "exec.beforeWrite", "exec.beforeWrite", "user.convict", "user.convict"}, 4, 6)
 	}
 
 	var mu sync.Mutex
@@ -286,6 +296,29 @@ func runLife(e *Env) {
 				}})
 			}
 			acts = append(acts, kernel.Action{Key: "cut-handshake", Rank: 6, Weight: 1, Do: func() { cutNext++ }})
+			// a connection that stays open but on which keep-alive probes are never answered again
+			// (a hung node, a half-open link): after a few failed probes the driver must give the
+			// connection up AND replace it
+			for _, sc := range cl.SConns() {
+				sc := sc
+				if sc.Dead || sc.C.ClientClosed() || !sc.Started || muted[sc] || sc.C.Name == ctrl {
+					continue
+				}
+				acts = append(acts, kernel.Action{Key: "mute-heartbeats:" + sc.C.Name, Rank: 6, Weight: 1, Do: func() {
+					muted[sc] = true
+					k.Fault("poolconn.heartbeats-never-answered")
+					// ... and the ten seconds it takes the driver to notice pass
+					for end := time.Now().Add(10 * time.Second); time.Now().Before(end) && !sc.C.ClientClosed(); {
+						k.AdvanceTime(time.Until(end))
+						k.Quiesce()
+						cl.Process()
+					}
+					if sc.C.ClientClosed() {
+						k.Probe("connection-given-up-after-unanswered-heartbeats")
+					}
+				}})
+				break
+			}
 			if authMode == 2 {
 				acts = append(acts, kernel.Action{Key: "auth-provider-fails", Rank: 6, Weight: 3, Do: func() {
 					atomic.StoreInt32(&authFailNext, int32(1+tp.Next(3)))
@@ -372,6 +405,9 @@ func runLife(e *Env) {
 	k.BeginSettle()
 	cutNext = 0
 	atomic.StoreInt32(&authFailNext, 0)
+	for sc := range muted {
+		delete(muted, sc) // faults stop: keep-alive probes are answered again
+	}
 	cl.Net.ClearDialOnce()
 	for _, h := range cl.Hosts {
 		cl.Net.SetDialMode(h.Addr, simnet.DialAccept)
@@ -477,6 +513,16 @@ func runLife(e *Env) {
 	cl.CloseAll()
 	k.SettleUntil(closeBound, 100*time.Millisecond, nil, func() bool { return len(kernel.BubbleGoroutines()) == 0 })
 }
+
+// lifeConviction is a user conviction policy whose AddFailure takes its time (it yields to
+// the scheduler, like any callback into user code may block for a while).
+type lifeConviction struct{ k *kernel.Kernel }
+
+func (c lifeConviction) AddFailure(err error, host *gocql.HostInfo) bool {
+	c.k.Yield("user.convict", "")
+	return true
+}
+func (c lifeConviction) Reset(host *gocql.HostInfo) {}
 
 // lifeInvariants: pool bounds at a quiescence.
 // settled: nothing is being dialled, replaced or closed any more (ten quiet seconds after the
